@@ -11,7 +11,7 @@ EXPLANATION = ('Inductive argument over the pipeline, each step a static rule: U
                'handed back to the caller (returned, appended to a MultiSubscription that the operator returns, or stored in a shared cell '
                'that the operator returns); U2 unsubscribe() of every composite subscription unsubscribes each part; U3 a subscriber\'s '
                'unsubscribe empties its observer slot; U4 task cancellation is atomic with running (same rule as C19.H3); U6 a shared observer slot delivers only while holding its cell guard, so unsubscribe (same cell) cannot return while a notification is in flight; U5 a late addition '
-               'to an unsubscribed composite is unsubscribed (same rule as C17.K2); U7 where an operator hands back a pair of its source subscription and a re-fillable handle cell (MutRc/MutArc<Option<handle>>, refilled by every next()), the pair tears the source down first, so no item can arm a fresh timer after the cell was emptied; U8 parts leave a MultiSubscription only through unsubscribe (same rule as C17.K6); U9 a stored task handle is overwritten only when absent, closed or cancelled (same rule as C19.H8). Declined: lock-level interleavings beyond U6; virtual-time positions '
+               'to an unsubscribed composite is unsubscribed (same rule as C17.K2); U7 where an operator hands back a pair of its source subscription and a re-fillable handle cell (MutRc/MutArc<Option<handle>>, refilled by every next()), the pair tears the source down first, so no item can arm a fresh timer after the cell was emptied; U8 parts leave a MultiSubscription only through unsubscribe (same rule as C17.K6); U10 no unsubscribe() has a path that does nothing at all unless it has found its slot / state empty (an early return on any other condition leaves the subscription live); U9 a stored task handle is overwritten only when absent, closed or cancelled (same rule as C19.H8). Declined: lock-level interleavings beyond U6; virtual-time positions '
                'of the cut are irrelevant to a per-function invariant.')
 ASSUMPTIONS = ['a released resource (emptied slot, cancelled task) delivers nothing: C01.P3, C19.H3']
 
@@ -30,7 +30,7 @@ CONTROLS = [
 
 
 def check(cx):
-    res = u1(cx) + u2(cx) + u3(cx) + u6(cx) + u7(cx)
+    res = u1(cx) + u2(cx) + u3(cx) + u6(cx) + u7(cx) + u10(cx)
     for f in c19.h3(cx):
         res.append(Finding(ID, 'U4', f.key, f.ok, f.msg, f.loc, f.witness))
     for f in c17.k2(cx):
@@ -375,4 +375,30 @@ def u7(cx):
                                im['span']))
     if not cx.control and n < 2:
         res.append(Finding(ID, 'U7', 'floor', False, 'expected the debounce and throttle pair subscriptions, found %d' % n))
+    return res
+
+
+def u10(cx):
+    """unsubscribe() is never a silent no-op on a live subscription (same analysis as C03.S12)"""
+    from . import c03
+    from ..core import witness, interesting_default
+    F = cx.facts
+    res = []
+    if cx.control:
+        return res
+    n = 0
+    for im in F.impls_of('subscription::Subscription'):
+        fn = F.impl_fn(im, 'unsubscribe')
+        if fn is None:
+            continue
+        if F.tystr(im['self']) == '()':
+            continue       # the unit subscription has nothing to tear down
+        n += 1
+        bad, g, pred = c03.silent_paths(cx, fn)
+        res.append(Finding(ID, 'U10', cx.label(fn), not bad,
+                           'unsubscribe() has a path that does nothing at all although it has not found its slot empty: the subscription stays live on that path'
+                           if bad else 'every path of unsubscribe() tears something down or has found the slot empty', fn['span'],
+                           witness(g, pred, bad[0], interesting_default) if bad else None))
+    if n < 15:
+        res.append(Finding(ID, 'U10', 'floor', False, 'only %d Subscription impls analysed, expected >= 15' % n))
     return res
